@@ -23,10 +23,27 @@ import time
 from concurrent.futures import ThreadPoolExecutor
 
 VERIF = os.path.dirname(os.path.dirname(os.path.abspath(__file__)))
-REPO = "/repo"
-COQ = os.path.join(VERIF, "coq")
+# VERIF_REPO (testing aid): run the checks against another checkout (a scratch git worktree with a
+# candidate breaking change) without touching /repo.  Everything mutable then lives under
+# run/alt-<hash>/ (own copy of coq/, own evidence), so runs against /repo are not disturbed.
+REPO = os.path.abspath(os.environ.get("VERIF_REPO") or "/repo")
+ALT = REPO != "/repo"
 RUN = os.path.join(VERIF, "run")
+COQ = os.path.join(VERIF, "coq")
+EVIDENCE = os.path.join(VERIF, "evidence")
+if ALT:
+    RUN = os.path.join(VERIF, "run", "alt-" + hashlib.sha256(REPO.encode()).hexdigest()[:10])
+    COQ = os.path.join(RUN, "coq")
+    EVIDENCE = os.path.join(RUN, "evidence")
 LOGICAL = "P9V"
+
+
+def prepare_alt():
+    """Copy coq/ (sources and compiled files) into the alternate run directory."""
+    if not ALT:
+        return
+    os.makedirs(RUN, exist_ok=True)
+    subprocess.run(["rsync", "-a", "--delete", "--exclude", "cases/", os.path.join(VERIF, "coq") + "/", COQ + "/"], check=True)
 
 GOENV = {
     "GOFLAGS": "-mod=mod",
@@ -123,7 +140,7 @@ def refresh_coqproject():
 
 def run_translator(log):
     """Regenerate coq/gen/*.v from /repo. Returns (ok, output)."""
-    binp = os.path.join(RUN, "bin", "go2coq")
+    binp = os.path.join(VERIF, "run", "bin", "go2coq")
     src = os.path.join(VERIF, "tools", "go2coq")
     if not os.path.isdir(src):
         return True, "no translator yet"
@@ -357,6 +374,7 @@ class Ctx:
         self.seed = seed
         self.replay = replay
         self.t0 = time.time()
+        prepare_alt()
         self.rundir = os.path.join(RUN, pid)
         shutil.rmtree(self.rundir, ignore_errors=True)
         os.makedirs(self.rundir, exist_ok=True)
@@ -382,15 +400,26 @@ class Ctx:
     def build(self, targets, properties_file):
         """Translator + make + Print Assumptions audit. Fills coverage['obligations'...]."""
         with Lock():
-            ok, out = run_translator(self.log)
-            if not ok:
-                self.broken.append({"kind": "translator", "what": "go2coq refused the current source", "detail": out[-3000:]})
+            ok, tout = run_translator(self.log)
             t = time.time()
             rc, out = make_targets(targets, timeout=3000 if self.thorough else 1500)
             self.log.append("[make %s] rc=%d %.1fs\n%s" % (" ".join(targets), rc, time.time() - t, out[-6000:]))
             cone = cone_of(properties_file)
+            for t in targets:
+                for f in cone_of(t[:-1] if t.endswith(".vo") else t):
+                    if f not in cone:
+                        cone.append(f)
+            cone.sort()
             names, forb = count_obligations(cone)
             self.cone = cone
+            if not ok:
+                # a refusal matters to this property only if a refused table is in its cone
+                refused = re.findall(r"REFUSED (\w+):(.*)", tout)
+                hit = [(n, why) for n, why in refused if "gen/%s.v" % n in cone]
+                if hit or not refused:
+                    self.broken.append({"kind": "translator", "what": "go2coq refused the current source: " +
+                                        "; ".join("%s:%s" % h for h in hit)[:600], "detail": tout[-3000:]})
+                    self.note("translator refused: %s" % (hit or tout[-300:]))
             discharged = len(names)
             if rc != 0:
                 err = parse_coq_error(out)
@@ -485,7 +514,7 @@ class Ctx:
         e = dict(GOENV)
         if race:
             e["CGO_ENABLED"] = "1"
-        e.update({"VERIF_OUT": outp, "VERIF_SEED": str(self.seed), "VERIF_TIER": self.tier, "VERIF_RUNDIR": self.rundir})
+        e.update({"VERIF_OUT": outp, "VERIF_SEED": str(self.seed), "VERIF_TIER": self.tier, "VERIF_RUNDIR": self.rundir, "VERIF_REPO_ROOT": REPO})
         if self.replay:
             e["VERIF_REPLAY"] = self.replay
         if env:
@@ -611,8 +640,8 @@ class Ctx:
             "broken": self.broken,
             "known_findings_hit": [l for l in lines if l.startswith("KNOWN-FINDING")],
         }
-        os.makedirs(os.path.join(VERIF, "evidence"), exist_ok=True)
-        with open(os.path.join(VERIF, "evidence", "%s.json" % self.pid), "w") as f:
+        os.makedirs(EVIDENCE, exist_ok=True)
+        with open(os.path.join(EVIDENCE, "%s.json" % self.pid), "w") as f:
             json.dump(ev, f, indent=1, default=str)
         self.save_log()
         for l in lines:
